@@ -40,8 +40,7 @@ Loops2 == {
 Loops3 == {
   PL("readshadow", <<InA, SInt("n", Num(5)), SFor("i", IRange(Num(0), Num(3), Num(0)), <<Lamp("e", Bin("+", Ref("n"), I), Num(0)), SInt("n", Num(20)), En("e", Bin(">", A, Ref("n")))>>)>>, "val"),
   PL("readshadow", <<InA, SLet("Signal", "x", Bin("+", A, Num(1))), SFor("i", IRange(Num(0), Num(3), Num(0)),
-       <<SLet("Signal", "y", Bin("+", Ref("x"), I)), SLet("Signal", "x", Bin("*", Ref("y"), Num(2))), Lamp("e", Bin("*", I, Num(2)), Num(0)), En("e", Bin(">", Ref("x"), Num(13)))>>)>>, "val"),
-  PL("readshadow", <<InA, Lamp("l", Num(9), Num(9)), SFor("i", IRange(Num(0), Num(2), Num(0)), <<En("l", Bin(">", A, I)), Lamp("l", Bin("*", I, Num(2)), Num(0)), En("l", Bin("<", A, I))>>)>>, "val")
+       <<SLet("Signal", "y", Bin("+", Ref("x"), I)), SLet("Signal", "x", Bin("*", Ref("y"), Num(2))), Lamp("e", Bin("*", I, Num(2)), Num(0)), En("e", Bin(">", Ref("x"), Num(13)))>>)>>, "val")
  }
 LoopAll == Loops1 \cup Loops2 \cup Loops3
 
